@@ -873,6 +873,9 @@ func genCfg(r *rng, algo, profile string) cfg {
 			c.gran = 1 << uint(r.rangeIncl(0, 12)) // gran > 1 with accept-all handler (linear scans use it)
 		}
 	}
+	if c.handler == "vam" && c.gran > 256 && c.size/c.gran > 4096 {
+		c.size = c.gran*r.rangeIncl(3, 4096) + r.intn(c.gran)
+	}
 	return c
 }
 
